@@ -899,3 +899,66 @@ func (m *Model) mustBlock(f *ssa.Function) bool {
 	m.mustBlockMemo[f] = res
 	return res
 }
+
+// inClaimUnit: f belongs to the code of a claim-set unit (the unit, the single-call-site functions
+// its body is split into, or a closure of one of them).
+func (m *Model) inClaimUnit(f *ssa.Function) bool {
+	for _, u := range m.ClaimSet {
+		if containsFn(m.unitFns(u), f) {
+			return true
+		}
+	}
+	return false
+}
+
+// eachUnitInstr visits the instructions of a unit's own goroutine: the unit function and the
+// functions called (plain calls) from exactly one place in it, not its closures.
+func (m *Model) eachUnitInstr(unit *ssa.Function, fn func(in ssa.Instruction)) {
+	for _, g := range m.bodyFns(unit) {
+		eachInstr(g, fn)
+	}
+}
+
+// unitGuards: the literals that hold at an instruction of a unit: its block's guards and those
+// inherited through the single call sites up to the unit.
+func (m *Model) unitGuards(unit *ssa.Function, in ssa.Instruction) []Lit {
+	gs := append([]Lit{}, m.GuardsAt(in)...)
+	f := in.Parent()
+	for i := 0; i < 6 && f != unit && f != nil; i++ {
+		if f.Parent() != nil {
+			if mc := m.Sym.closureOf[f]; mc != nil {
+				gs = append(gs, m.GuardsAt(mc)...)
+				f = mc.Parent()
+				continue
+			}
+			break
+		}
+		sites := m.callers[f]
+		if len(sites) != 1 {
+			break
+		}
+		gs = append(gs, m.GuardsAt(sites[0].Instr)...)
+		f = sites[0].Caller
+	}
+	return gs
+}
+
+
+// ownerOf: the function whose body f is part of: f itself, or - if f is an unexported function
+// with exactly one (plain) call site - the owner of its caller.
+func (m *Model) ownerOf(f *ssa.Function) *ssa.Function {
+	for i := 0; i < 6; i++ {
+		if f.Parent() != nil {
+			return f
+		}
+		if obj := f.Object(); obj != nil && obj.Exported() {
+			return f
+		}
+		sites := m.callers[f]
+		if len(sites) != 1 || sites[0].IsGo || sites[0].IsDef {
+			return f
+		}
+		f = sites[0].Caller
+	}
+	return f
+}
